@@ -194,7 +194,7 @@ fn seeds_for(tier: Tier, b: usize, source: Source) -> u32 {
         _ => 400,
     };
     let base = if source == Source::RandomHashes { base } else { base / 4 };
-    tier.pick(base, base * 5)
+    tier.pick(base, base * 15)
 }
 
 fn run_cells(ctx: &Ctx) {
@@ -435,7 +435,7 @@ pub fn checks() -> Vec<Box<dyn DynCheck>> {
 }
 
 pub fn run(ctx: &Ctx) {
-    ctx.set_rule("cells (b, n, source): all 15 precisions; n on a grid of 71 (quick, step 0.1 m up to 6 m) / ~140 (thorough, step 0.05 m) cardinalities from 0.05 m to 50 m, dense around the estimator switch-overs; sources: independent random 64-bit hashes via add_hashed (all b), add(&i) of sequential integers (b <= 14) and add(\"key-i\") of strings (b <= 12, n <= 8m) under seeded SipHash. One trajectory per seed serves all checkpoints of its b; seeds per cell 4000 (b <= 10), 1600 (11..14), 400 (15..18) for random hashes, a quarter of that for the real-hasher sources, x5 in thorough. Per cell, errors (reduced by 2 units for integer effects) normalised by n*relative_error(): RMS <= 1.25 (2.2 for 0.5m <= n <= 2m), |mean| <= 0.75, fraction beyond 3 <= 5 %, each at z = 6, flagged cells re-measured with 4x fresh seeds. exact: empty sketch counts 0; up to 8 adds with b >= 9 counted to within 1 of the distinct registers hit; count() returns for generated register vectors (all equal, one hot, random, half zero, explicit, values up to 255). Non-trivial: every measured cell with n >= 1 (distinct = (b, n, source)); exact cases with distinct registers or a register vector. evaluations = trajectories + cells + exact cases.");
+    ctx.set_rule("cells (b, n, source): all 15 precisions; n on a grid of 71 (quick, step 0.1 m up to 6 m) / ~140 (thorough, step 0.05 m) cardinalities from 0.05 m to 50 m, dense around the estimator switch-overs; sources: independent random 64-bit hashes via add_hashed (all b), add(&i) of sequential integers (b <= 14) and add(\"key-i\") of strings (b <= 12, n <= 8m) under seeded SipHash. One trajectory per seed serves all checkpoints of its b; seeds per cell 4000 (b <= 10), 1600 (11..14), 400 (15..18) for random hashes, a quarter of that for the real-hasher sources, x15 in thorough. Per cell, errors (reduced by 2 units for integer effects) normalised by n*relative_error(): RMS <= 1.25 (2.2 for 0.5m <= n <= 2m), |mean| <= 0.75, fraction beyond 3 <= 5 %, each at z = 6, flagged cells re-measured with 4x fresh seeds. exact: empty sketch counts 0; up to 8 adds with b >= 9 counted to within 1 of the distinct registers hit; count() returns for generated register vectors (all equal, one hot, random, half zero, explicit, values up to 255). Non-trivial: every measured cell with n >= 1 (distinct = (b, n, source)); exact cases with distinct registers or a register vector. evaluations = trajectories + cells + exact cases.");
     ctx.assume("bounds: 'about relative_error()' = 1.25x, 'about twice' = 2.2x, 'close to zero' = 0.75x, 'a few percent' = 5 %; integer effects of 2 units are subtracted from every error");
     ctx.run_regressions(&[&Cells, &Exact]);
     run_cells(ctx);
